@@ -1,10 +1,10 @@
 SPECIFICATION Spec
 CONSTANTS
-  Pre = {"none", "cmt", "doctype", "cempty"}
-  Open = {"oa", "oattr", "ons", "sc", "scsp"}
+  Pre = {"none", "cmt", "cempty"}
+  Open = {"oa", "oattr", "ons", "sc"}
   Content = {"none", "txt", "cdata", "nested"}
   Close = {"ca", "cns", "cb", "none"}
-  Post = {"none", "sp", "elem2", "stray", "lt", "ltbang"}
+  Post = {"none", "sp", "elem2", "stray", "lt"}
 INVARIANTS BalancedWhenMatched StrayGoesNegative CutIsProperPrefix
 CONSTRAINT Emit
 CHECK_DEADLOCK FALSE
